@@ -306,6 +306,11 @@ func c10Exec(t *testing.T, p *Plan) (r *c10Result) {
 			before := len(cw.calls)
 			rec := httptest.NewRecorder()
 			hr := httptest.NewRequest(http.MethodPost, "/add-checkpoint", bytes.NewReader(cr.Body))
+			if rng.Chance(0.3) {
+				// the body arrives in pieces, as it does from a network (a read may end anywhere, also in the middle of a line)
+				hr = httptest.NewRequest(http.MethodPost, "/add-checkpoint", &faultyReader{data: cr.Body, chunks: NewRng(rng.Uint64()), maxChunk: Pick(rng, 1, 7, 100, 1000), endAt: -1, errAt: -1})
+				hr.ContentLength = -1
+			}
 			hr.RemoteAddr = "bastion:1"
 			if fk := reqFaults[len(r.reqs)]; fk != "" && p.Cfg.Store == "sqlite" {
 				// one storage fault inside the database driver while this request is served (SQLite reporting busy, an I/O error, a full disk)
